@@ -64,6 +64,24 @@ def _river_label_model():
     return RiverWrapper(predict_one)
 
 
+_RIVER_MODEL = {}
+
+
+def _river_bound_method():
+    """ONE trained river classifier with string labels for the whole process: its bound predict_one is handed to every replay, as a user
+    who explains the same model twice would do (validate_model_function wraps it into a fresh RiverWrapper each time)."""
+    if 'm' not in _RIVER_MODEL:
+        from river import naive_bayes
+        m = naive_bayes.GaussianNB()
+        rs = random.Random(12345)
+        for _ in range(60):
+            x = {'f0': rs.uniform(-2, 2), 'f1': rs.uniform(-2, 2)}
+            s_ = x['f0'] - x['f1']
+            m.learn_one(x, 'neg' if s_ < -0.7 else ('mid' if s_ < 0.7 else 'pos'))
+        _RIVER_MODEL['m'] = m
+    return _RIVER_MODEL['m'].predict_one
+
+
 def build(case):
     from ixai.explainer import IncrementalPFI
     from ixai.explainer.sage import IncrementalSage, BatchSage, IntervalSage
@@ -75,6 +93,9 @@ def build(case):
     model = _model('tree' if tree else 'plain')
     if case.get('model_kind') == 'river_str' and not tree:
         model = _river_label_model()
+    if case.get('model_kind') == 'river_bound' and not tree:
+        model = _river_bound_method()
+        names = ['f0', 'f1']
     k = case['k']
     s = case['storage']
     if case['cls'] == 'interval':
@@ -222,7 +243,7 @@ def run_case(case, fresh_interpreter=False):
         return Result(False, key=f'C18:replay-raises:{type(e).__name__}',
                       detail=f'the first run succeeded, the replay after interference raised {e!r} for {case}')
     del keep
-    tag = f"{case['cls']}:{case['storage']}:{case['imputer']}" + (':river_str_labels' if case.get('model_kind') == 'river_str' else '')
+    tag = f"{case['cls']}:{case['storage']}:{case['imputer']}" + (':' + case['model_kind'] if case.get('model_kind') in ('river_str', 'river_bound') else '')
     default_seed = case['storage'] == 'tree' and case.get('tree_seed') is None
     if da != db:
         return Result(False, key=f"C18:replay-differs:{case['storage']}:{'default-tree-seed' if default_seed else 'seeded'}",
@@ -253,6 +274,7 @@ def combos():
     for cls in ('pfi', 'sage', 'batch'):
         out.append((cls, 'uniform', 'joint', 'river_str'))
         out.append((cls, 'interval', 'product', 'river_str'))
+        out.append((cls, 'geometric', 'joint', 'river_bound'))
     for cls in ('pfi', 'sage'):   # BatchSage/IntervalSage need get_data(), which TreeStorage does not offer
         for imputer in ('tree', 'tree+storage', 'tree+direct', 'tree+storage+direct', 'default'):
             for tree_seed in (None, 7):
@@ -274,7 +296,7 @@ def cases(draw, combo):
     return {'cls': cls, 'storage': storage, 'imputer': imputer, 'd': rev(1, 3), 'k': rev(1, 4),
             'n_inner': rev(1, 2), 'dynamic': draw(st.booleans()), 'T': T,
             'seeds': [draw(gen.seed32) % (2 ** 31), draw(gen.seed32) % (2 ** 31)], 'stream_seed': draw(st.integers(0, 10 ** 6)),
-            'tree_seed': tree_seed if storage == 'tree' else None, 'model_kind': 'river_str' if tree_seed == 'river_str' else 'plain',
+            'tree_seed': tree_seed if storage == 'tree' else None, 'model_kind': tree_seed if tree_seed in ('river_str', 'river_bound') else 'plain',
             'grace': draw(st.sampled_from([5, 8, 20])),
             'interference': rev(0, 5), 'clock_offset': draw(st.sampled_from([1000.0, 0.0, -5e8]))}
 
